@@ -16,12 +16,16 @@ import os
 import re
 
 
+class UnknownShape(ValueError):
+    pass
+
+
 def one(pattern, text, what):
     ms = re.findall(pattern, text, flags=re.S)
     if len(ms) < 1:
-        raise ValueError("cannot find %s" % what)
+        raise UnknownShape("cannot find %s" % what)
     if len(set(ms)) != 1:
-        raise ValueError("ambiguous %s: %r" % (what, sorted(set(ms))))
+        raise UnknownShape("ambiguous %s: %r" % (what, sorted(set(ms))))
     return ms[0]
 
 
@@ -35,7 +39,7 @@ def generate(repo):
     ret = one(r"inline ScalarType euclidean_distance\(.*?\)\s*\{.*?return\s+([^;]+);\s*\}", vp_nc, "return of tsne::euclidean_distance")
     ret = ret.replace(" ", "")
     if ret not in ("dd", "sqrt(dd)", "std::sqrt(dd)"):
-        raise ValueError("unexpected return expression %r of tsne::euclidean_distance" % ret)
+        raise UnknownShape("unexpected return expression %r of tsne::euclidean_distance" % ret)
     # the K-NN perplexity routine squares the returned distances after the search (or not)
     sq = re.findall(r"tree->search\(obj_X\[n\],[^;]*;\s*for\s*\([^{};]*;[^{};]*;[^{};]*\)\s*distances\[m\]\s*\*=\s*distances\[m\]\s*;", ts_nc, flags=re.S)
     # `X.array() /= X.maxCoeff();` guarded by `if (X.maxCoeff() > 0)` (or not)
@@ -50,27 +54,27 @@ def generate(repo):
     elif (sh_dense, sh_knn, raw_dense, raw_knn) == (0, 0, 1, 1):
         shift = False
     else:
-        raise ValueError("cannot classify the kernel rows (shifted/raw distances): %r" % ((sh_dense, sh_knn, raw_dense, raw_knn),))
+        raise UnknownShape("cannot classify the kernel rows (shifted/raw distances): %r" % ((sh_dense, sh_knn, raw_dense, raw_knn),))
     if not re.search(r"X\.array\(\)\s*/=\s*X\.maxCoeff\(\)\s*;", ts_nc):
-        raise ValueError("cannot find the max-normalisation statement")
+        raise UnknownShape("cannot find the max-normalisation statement")
     op, factor = one(r"DD_map(?:\.noalias\(\))?\s*(\+=|-=|=)\s*(-?[\d.]+)\s*\*\s*X_map\.transpose\(\)\s*\*\s*X_map\s*;", ts_nc,
                      "the DD_map product statement")
     if op not in ("=", "+="):
-        raise ValueError("unexpected operator %r in the DD_map statement" % op)
+        raise UnknownShape("unexpected operator %r in the DD_map statement" % op)
     if float(factor) != -2.0:
-        raise ValueError("unexpected factor %r in the DD_map statement" % factor)
+        raise UnknownShape("unexpected factor %r in the DD_map statement" % factor)
     nodims = int(one(r"static const int QT_NO_DIMS\s*=\s*(\d+)\s*;", qt, "QT_NO_DIMS"))
     cap = int(one(r"static const int QT_NODE_CAPACITY\s*=\s*(\d+)\s*;", qt, "QT_NODE_CAPACITY"))
     iters = int(one(r"while\s*\(!found\s*&&\s*iter\s*<\s*(\d+)\)", ts_nc, "bisection iteration bound"))
     tol = one(r"ScalarType tol\s*=\s*([\de.+-]+)\s*;", ts_nc, "bisection tolerance")
     if float(tol) != 1e-5:
-        raise ValueError("unexpected bisection tolerance %r" % tol)
+        raise UnknownShape("unexpected bisection tolerance %r" % tol)
     kmult = one(r"perplexity,\s*\(int\)\s*\(\s*(\d+)\s*\*\s*perplexity\s*\)\s*\)", ts_nc, "neighbour count expression")
     kplus = one(r"tree->search\(obj_X\[n\],\s*K\s*\+\s*(\d+)\s*,", ts_nc, "K + 1 of the tree search")
     dop, dnum = one(r"sym_val_P\[i\]\s*(/=|\*=)\s*([\d.]+)\s*;", ts_nc, "divisor of the CSR symmetriser")
     div = float(dnum) if dop == "/=" else (1.0 / float(dnum) if float(dnum) != 0 else 0.0)   # `*= 0.5` is `/= 2.0`
     if div != float(int(div)) or div < 1:
-        raise ValueError("symmetriser scaling %s %s is not a division by a positive integer" % (dop, dnum))
+        raise UnknownShape("symmetriser scaling %s %s is not a division by a positive integer" % (dop, dnum))
     lines = [
         "/- GENERATED by tools/translate_tsne.py from include/tapkee/external/barnes_hut_sne/{tsne,quadtree}.hpp.",
         "   Do not edit; regenerated on every check run.",
